@@ -54,6 +54,11 @@ CLAIMED["C07"] = dict(
     text="Every flow of the global key Delta to a message payload passes through a hash, garble::encrypt, the correlated-OT sender, or an XOR with an own Key/Label-derived value that is not a message component (Delta combined only with public or peer-held values alarms); own wire labels reach a payload only inside AEAD rows / key derivation or through the select Label ^ Delta; the aShare claimed-bit defect (root of the documented Delta leak) is recorded as a known finding. Combination leaks across several legitimate messages are value-level and not decided.",
     note="Trusted: one-wayness of blake3 / AES hashes / AEAD / OT sender for Delta. Per-function flow with call summaries (result depends on arguments).",
     ref="DESIGN.md §3 R6.4, §4 C07")
+CLAIMED["C09"] = dict(
+    technique="codec who-may-construct rule + secret value-taint over the whole-program flow graph with control-dependence regions of secret-conditioned branches (rustc MIR)",
+    text="For every input and coin at once: the fixed-width bincode configuration is the only one constructed and the wire codec goes through utils::serde; no branch whose condition is value-dependent on an own secret (other than abort checks) controls a channel operation, an await, a length-changing container operation, the Some/None pattern of a message slot or a filter-like adaptor; expected-length arguments are secret-free. Byte-exact sizes and timing are not decided.",
+    note="Trusted: bincode legacy = fixed-width; lengths / Option discriminants / iterator exhaustion are treated as public shape.",
+    ref="DESIGN.md §3 R7, §4 C09")
 NA = {}
 
 def main():
